@@ -914,7 +914,7 @@ const ruleCommon = "rapid state machine, single writer on the real preconfirmed.
 
 // TestPropStorageModel: the base state is served from the canonical model (no database).
 func TestPropStorageModel(t *testing.T) {
-	stats.Check(t, stats.Budget{Quick: 250, Thorough: 2500}, ruleCommon+"; base state read from the canonical model",
+	stats.Check(t, stats.Budget{Quick: 160, Thorough: 2500}, ruleCommon+"; base state read from the canonical model",
 		func(rt *rapid.T, c *stats.Case) {
 			m := newMachine(rt, c, false)
 			rt.Repeat(m.actions())
@@ -926,7 +926,7 @@ func TestPropStorageModel(t *testing.T) {
 // base of every overlay read is the real StateAtBlockNumber(oldest-1), heads are stored/reverted
 // for real.
 func TestPropOverlay(t *testing.T) {
-	stats.Check(t, stats.Budget{Quick: 100, Thorough: 1000}, ruleCommon+"; base state = real Blockchain on either state backend storing/reverting the generated canonical blocks",
+	stats.Check(t, stats.Budget{Quick: 70, Thorough: 1000}, ruleCommon+"; base state = real Blockchain on either state backend storing/reverting the generated canonical blocks",
 		func(rt *rapid.T, c *stats.Case) {
 			m := newMachine(rt, c, true)
 			rt.Repeat(m.actions())
@@ -948,7 +948,7 @@ func (emptyBase) StateAtBlockNumber(uint64) (core.StateReader, blockchain.StateC
 // for the number asked, two deep fingerprints of the same view (with state reads through the
 // view and a yield in between) are equal. The writer keeps all its sequential oracles.
 func TestRaceConcurrentReaders(t *testing.T) {
-	stats.Check(t, stats.Budget{Quick: 24, Thorough: 150},
+	stats.Check(t, stats.Budget{Quick: 16, Thorough: 150},
 		"the writer machine of TestPropStorageModel runs while 4 reader goroutines loop: SnapshotForBlock(n) for n cycling over [1, head0+8], shape check, fingerprint, PreConfirmedStateAt(tip)+storage reads+lookups through the view, yield, fingerprint again (must be equal); under -race. Non-trivial = as in the machine, or the readers saw >= 3 different non-empty views",
 		func(rt *rapid.T, c *stats.Case) {
 			m := newMachine(rt, c, false)
